@@ -166,24 +166,85 @@ def product_strs(alpha, maxlen):
 
 
 def gen_lexer_stream(rnd, n):
-    """texts for the lexer-model correspondence: well-formed tokens of every modelled class and
-    malformed variants (unterminated, bad escapes, bad prefixes, prohibited characters)"""
-    starts = ["'", '"', "r'", 'r"', "b'", 'b"', "br'", 'rb"', "$$", "$a$", "$ab1$", "$", "`", "$`", "a", "_",
-              "é", "1", "0", "x'", "rr'", "R'", "B'", "$1", "$1a", "$a1", "__", "select", "ORDER", "²", "$é$"]
-    pieces = ["'", '"', '\\', '$', '`', 'a', 'b', '1', '_', ' ', '\n', '\r', '\t', '\\x41', '\\x85', '\\x00',
-              '\\x+4', '\\u0041', '\\u202e', '\\ud800', '\\U0001F600', '\\U00110000', '\\n', '\\t', "\\'", '\\"',
-              '\\\\', '\\/', '\\(', '\\\n  ', '\\\n  ab', '\\q', '‮', '\x00', 'é', '²', '$$', '$a$', '``',
-              '::', '@', '__', 'e', '.', 'n', '\\x4', '\\u00e', '\x85', '\xa0', '\\\r\n\t']
+    """texts for the lexer-model correspondence: mostly well-formed tokens of every modelled class
+    (all string spellings with every escape kind, bytes, back-quoted names, names/keywords,
+    parameters, integers) followed by a continuation, plus a malformed stream (unterminated, bad
+    escapes, bad prefixes, prohibited characters, random splices)"""
+    plain = ['a', 'b', 'Z', '1', '_', ' ', 'é', '²', '٣', ';', '$', '`', '::', '@', '__', '\t', '(', ')', '.',
+             'x', 'u', '\U0001F600', '\xa0', '\x85', '中']
+    esc_ok = ['\\x41', '\\x7f', '\\x01', '\\u0041', '\\u202e', '\\u00e9', '\\U0001F600', '\\U0010ffff',
+              '\\n', '\\t', '\\r', '\\b', '\\f', "\\'", '\\"', '\\\\', '\\/', '\\\n  ', '\\\n\t x', '\\\r\n',
+              '\\\n\xa0\xa0ab', '\\\n\u2003abcd']
+    esc_bad = ['\\x85', '\\x00', '\\x+4', '\\x4', '\\xg1', '\\u00e', '\\ud800', '\\u0000', '\\U00110000',
+               '\\U0000000', '\\q', '\\(', '\\é', '\\ ', '‮', '\x00', '\u2066']
+    besc_ok = ['\\x00', '\\xff', '\\x41', '\\n', '\\t', "\\'", '\\"', '\\\\', '\\\n  \t', '\\\n\x0bq']
+    words = ['select', 'Select', 'ORDER', 'order', 'named', 'set', 'abstract', 'union', '__type__', '__x__', '__',
+             'abc', 'a1', '_x', 'é1', 'x²', 'if', 'b', 'r', 'br', 'rb', 'x']
     out = []
     for _ in range(n):
-        s = rnd.choice(starts)
-        for _ in range(rnd.randint(0, 6)):
-            s += rnd.choice(pieces)
-        if rnd.random() < 0.6:
-            s += rnd.choice(["'", '"', '`', '$$', '$a$', '$ab1$', ''])
-        if rnd.random() < 0.5:
-            s += rnd.choice(K_QUOTED)
-        out.append(('X', s, '', 0))
+        cls = rnd.choice(['str', 'str', 'raw', 'bin', 'rawbin', 'dollar', 'tag', 'bt', 'word', 'param', 'parambt',
+                          'int', 'junk'])
+        bad = rnd.random() < 0.25
+        body = ''
+        for _ in range(rnd.randint(0, 5)):
+            r = rnd.random()
+            if cls in ('str',):
+                body += rnd.choice(esc_ok) if r < 0.45 else rnd.choice(plain) if r < 0.9 or not bad else rnd.choice(esc_bad)
+            elif cls == 'bin':
+                body += rnd.choice(besc_ok) if r < 0.45 else rnd.choice('ab1 ;$`x.') if r < 0.9 or not bad else rnd.choice(esc_bad + ['é'])
+            else:
+                body += rnd.choice(plain) if r < 0.9 or not bad else rnd.choice(esc_ok + esc_bad)
+        q = rnd.choice('\'"')
+        if cls == 'str':
+            body = body.replace(q, '')
+            s = q + body + ('' if bad and rnd.random() < 0.3 else q)
+        elif cls == 'raw':
+            body = body.replace(q, '')
+            s = rnd.choice(['r', 'r', 'R', 'rr', 'x']) if bad and rnd.random() < 0.4 else 'r'
+            s += q + body + ('' if bad and rnd.random() < 0.3 else q)
+        elif cls in ('bin', 'rawbin'):
+            body = body.replace(q, '')
+            if not bad:
+                body = ''.join(ch for ch in body if ord(ch) < 128)
+            pre = 'b' if cls == 'bin' else rnd.choice(['br', 'rb'])
+            if bad and rnd.random() < 0.3:
+                pre = rnd.choice(['B', 'bb', 'rbr', 'Br'])
+            s = pre + q + body + ('' if bad and rnd.random() < 0.3 else q)
+        elif cls == 'dollar':
+            body = body.replace('$$', '$')
+            s = '$$' + body + ('' if bad and rnd.random() < 0.3 else rnd.choice(['$$', '$$', '$$$']))
+        elif cls == 'tag':
+            tag = rnd.choice(['$a$', '$ab1$', '$_$', '$a_b$', '$A1$']) if not bad else \
+                rnd.choice(['$1a$', '$é$', '$a b$', '$a$', '$'])
+            s = tag + body.replace(tag, '') + ('' if bad and rnd.random() < 0.3 else tag)
+        elif cls == 'bt':
+            body = body.replace('`', '``') or 'a'
+            if not bad:
+                body = body.replace('::', ':').lstrip('@$') or 'a'
+            s = '`' + body + ('' if bad and rnd.random() < 0.3 else '`')
+        elif cls == 'word':
+            s = rnd.choice(words)
+            if rnd.random() < 0.3:
+                s += rnd.choice(['1', '_', 'é', 'x'])
+        elif cls == 'param':
+            s = '$' + rnd.choice(['a', 'abc', '1', '12', '0', '_', 'a1', 'é', 'select', '__a__'] +
+                                 (['1a', '01x', '', '²', 'a$'] if bad else []))
+        elif cls == 'parambt':
+            body = body.replace('`', '``') or 'a'
+            if not bad:
+                body = body.replace('::', ':').lstrip('@') or 'a'
+            s = '$`' + body + ('' if bad and rnd.random() < 0.3 else '`')
+        elif cls == 'int':
+            s = rnd.choice(['0', '1', '12', '1_000', '9223372036854775808', '18446744073709551615',
+                            '18446744073709551616', '007', '0_', '1e5', '1.5', '1n', '12abc'])
+        else:
+            s = rnd.choice(["'", '"', "r'", "b'", '$$', '$a$', '`', '$`', 'a', '1', '$', '²', '?', '\\', ''])
+            for _ in range(rnd.randint(0, 6)):
+                s += rnd.choice(plain + esc_ok + esc_bad + ["'", '"', '\\', '$$', '$a$', '``'])
+        if rnd.random() < 0.7:
+            s += rnd.choice(K_QUOTED + K_BARE + [' by', ' only', ' type', "'x'"])
+        if s and s[0] not in ' \t\r\n#\ufeff':
+            out.append(('X', s, '', 0))
     return out
 
 
@@ -232,13 +293,13 @@ def gen_cases(tier):
         from_kw += [''.join(map(chr, w)) for w in G.get(name, [])]
     pgkw = [''.join(map(chr, w)) for w, _ in G.get('g_pg_keywords', [])]
     for w in QL_WORDS + from_kw:
-        for v in {w, w.upper(), w.capitalize(), w + '_', w[:-1] + w[-1:].upper()}:
+        for v in sorted({w, w.upper(), w.capitalize(), w + '_', w[:-1] + w[-1:].upper()}):
             for fl in (0, 2, 4, 6):
                 cases.append(('I', v, rnd.choice(K_BARE), fl))
             cases.append(('P', v, rnd.choice(K_BARE), 0))
             cases.append(('X', v + rnd.choice(K_BARE + [" by", " only", "'x'", '`'])  , '', 0))
     for w in PG_WORDS + pgkw:
-        for v in {w, w.upper(), w.capitalize(), w + '_'}:
+        for v in sorted({w, w.upper(), w.capitalize(), w + '_'}):
             for fl in (0, 2):
                 cases.append(('i', v, rnd.choice(K_PGID), fl))
     # ---- every code point once (thorough) / a spread (quick) through the string and name forms
@@ -249,8 +310,8 @@ def gen_cases(tier):
         ch = chr(c)
         cases.append(('C', ch, '', 0))
         cases.append(('I', ch + 'x', ' ', 0))
-        cases.append(('I', 'x' + ch, ' ', 0))
-        if thorough or c % 3 == 0:
+        if c % (5 if thorough else 3) == 0:
+            cases.append(('I', 'x' + ch, ' ', 0))
             cases.append(('L', ch, '', 0))
             cases.append(('P', 'x' + ch, ' ', 0))
             cases.append(('i', 'x' + ch, ' ', 0))
@@ -298,7 +359,7 @@ def gen_cases(tier):
 TABLES = {}
 
 THEOREMS = [
-    'C18_ql_quote_literal', 'C18_ql_dollar_quote_literal', 'C18_ql_visit_constant', 'C18_ql_visit_bytes',
+    'C18_ql_quote_literal', 'C18_ql_dollar_quote_literal', 'C18_dq_fuel_enough', 'C18_ql_visit_constant', 'C18_ql_visit_bytes',
     'C18_ql_quote_ident_partial', 'C18_ql_quote_ident_quoted', 'C18_ql_param_to_str_partial',
     'C18_ascii_compat', 'C18_ql_quote_ident_refuted', 'C18_ql_param_to_str_refuted',
     'C18_ql_quote_ident_num_refuted', 'C18_pg_quote_literal', 'C18_pg_quote_ident', 'C18_pg_quote_bytea',
@@ -589,6 +650,10 @@ def run(tier):
     rep = lib.Report(PROP, tier, 'proof')
     thorough = tier == 'thorough'
     t_start = time.time()
+    stage = {}
+
+    def mark(name):
+        stage[name] = round(time.time() - t_start, 1)
 
     # ---- 1. translator (fail-closed)
     tr_err = None
@@ -611,6 +676,7 @@ def run(tier):
     pf = lib.proof_stage(rep, 'C18', THEOREMS, extra_targets=['theories/C18/Refuted.vo'], thorough=thorough)
     exe, blog = lib.build_model('c18', 'ExtractC18.v', 'c18_main.ml', 'C18_ext')
 
+    mark('translator+proofs+model_build')
     # ---- 3. real lexer + code point sweep (instantiates the Unicode tables of the model)
     harness_fail = None
     try:
@@ -626,11 +692,14 @@ def run(tier):
                              'trusted_base': []})
         return rep.finish()
 
+    mark('lexer+sweep')
     # ---- 4. cases; real code (+ real lexer, monitors) vs extracted model
     cases, ncorp = gen_cases(tier)
     lines = [enc(c) for c in cases]
     impl = run_impl(lines, binary)
     model = run_model(exe, tbl, lines) if exe else None
+
+    mark('cases+impl+model')
 
     def impl_of(cs):
         return run_impl([enc(c) for c in cs], binary)
@@ -672,6 +741,7 @@ def run(tier):
             if plain and not r.split('\t')[2].startswith('ok:Q:'):
                 pg_fail.append(i)
 
+    mark('compare')
     # ---- 5. a sample evaluated inside Coq (guards the extraction step); ASCII-only cases so that
     #         the Unicode tables are not consulted
     coq_diff, n_coq = [], 0
@@ -695,6 +765,7 @@ def run(tier):
         except Exception as e:   # noqa
             coq_diff.append((-1, str(e)[-800:]))
 
+    mark('coq_eval')
     # ---- 6. verdict
     real_viol = 0
     by_flag = {}
@@ -779,6 +850,7 @@ def run(tier):
     elif broken:
         rep.notes.append('ties also broken: ' + ' | '.join(w for w, _ in broken)[:2000])
 
+    mark('verdict')
     # ---- 7. evidence
     distinct = {l for l, c in zip(lines, cases) if nontrivial(c)}
     by_fn, forms, lexkinds, lens = {}, {}, {}, {}
@@ -804,7 +876,7 @@ def run(tier):
                 'combinations, %s code point through the string and name forms, seeded random long strings by '
                 'Unicode category buckets, a token stream for the lexer model (well-formed tokens of every modelled '
                 'class + malformed variants); continuation k drawn from a per-form list; '
-                'non-trivial = contains a character of the adversarial class of the form under test (quotes, '
+                'names that are all ASCII digits with value >= 2**64 under allow_num=True are outside the domain (that form is by construction an integer token); non-trivial = contains a character of the adversarial class of the form under test (quotes, '
                 'backslash, $, controls, bidi for strings; a non-letter, a keyword or mixed case for names; '
                 'a byte the bytes form must escape); distinct = distinct encoded case (function, argument, k, flags)'
                 % (4 if thorough else 3, 'every' if thorough else 'every 37th'),
@@ -829,6 +901,7 @@ def run(tier):
         'real_lexer_result_kinds': dict(sorted(lexkinds.items())),
         'argument_lengths': {f'{k}-{k + 4}' if k < 40 else '40+': v for k, v in sorted(lens.items())},
         'corpus_cases': ncorp,
+        'stage_done_at_s': stage,
         'sweep': {k: sw[k] for k in ('unicode', 'python', 'code_points_swept', 'code_points_through_rust_lexer',
                                      'counts', 'n_problems')} | {
             'incompatible_code_points': {k: (v if not isinstance(v, dict) else {'n': v['n'], 'first_ranges': v.get('ranges', [])[:8]})
@@ -851,8 +924,8 @@ def run(tier):
         ],
     })
     rep.assumptions = [
-        'theorems are conditional on ql_dollar_quote_literal returning Some (the fuel S(len s) of the tag search was '
-        'never exhausted in this run: model_out_of_fuel above); fuel sufficiency is not proved',
+        'a bare all-digit name (allow_num) is checked with continuations other than "." (ql_num_boundary): the '
+        'tokenizer state after a dot (tuple index) is outside the one-token model',
         'ident_to_str, qname, quote_type, encode_value and the two code generators are covered by the monitors / '
         'correspondence only (no theorem); quote_e_literal (unused in the tree) is not covered',
         'the Validator\'s multi-word keyword merging (named only, set type, order by, ...) depends on the next token '
